@@ -89,32 +89,51 @@ func scratchDir() (string, func(), error) {
 
 // reference runs the program in-process on a file store and returns the state
 // hashes S_0..S_n and the file images F_0..F_n (F_0 = nil: no file).
-func c05Reference(prog CrashProgram, plan map[int]string) (hashes []string, images [][]byte, results []bool, err error) {
+// countingStore counts the Store calls that reach the file store.
+type countingStore struct {
+	inner lungo.Store
+	calls int
+}
+
+func (c *countingStore) Load() (*lungo.Catalog, error) { return c.inner.Load() }
+
+func (c *countingStore) Store(cat *lungo.Catalog) error {
+	c.calls++
+	return c.inner.Store(cat)
+}
+
+// c05ReferenceW also reports, per commit, whether it wrote the store file (a
+// commit may rewrite the file without changing the state, e.g. creating an
+// index that already exists).
+func c05ReferenceW(prog CrashProgram, plan map[int]string) (hashes []string, images [][]byte, results []bool, wrote []bool, err error) {
 	dir, cleanup, err := scratchDir()
 	if err != nil {
-		return nil, nil, nil, err
+		return nil, nil, nil, nil, err
 	}
 	defer cleanup()
 	path := filepath.Join(dir, "db.bson")
-	var store lungo.Store = lungo.NewFileStore(path, 0o644)
+	counter := &countingStore{inner: lungo.NewFileStore(path, 0o644)}
+	var store lungo.Store = counter
 	if plan != nil {
 		store = &failingStore{inner: store, plan: plan}
 	}
 	client, engine, err := lungo.Open(context.Background(), lungo.Options{Store: store, ExpireInterval: 24 * time.Hour})
 	if err != nil {
-		return nil, nil, nil, err
+		return nil, nil, nil, nil, err
 	}
 	defer engine.Close()
 	hashes = append(hashes, CrashStateHash(engine.Catalog()))
 	images = append(images, nil)
 	for i, cm := range prog.Commits {
+		before := counter.calls
 		e := CrashApplyCommit(client, cm, i+1)
 		results = append(results, e == nil)
+		wrote = append(wrote, counter.calls > before)
 		hashes = append(hashes, CrashStateHash(engine.Catalog()))
 		img, _ := os.ReadFile(path)
 		images = append(images, img)
 	}
-	return hashes, images, results, nil
+	return hashes, images, results, wrote, nil
 }
 
 func loadHash(path string) (string, error) {
@@ -372,10 +391,14 @@ func haveStrace() bool {
 // commitOfCall assigns each traced call to the commit whose file write it
 // belongs to: a commit's calls start with the unlinkat of the temp file and end
 // with the close of the directory.
-func assignCommits(trace []sysCall, committing []int) {
+func assignCommits(trace []sysCall, committing []int) int {
 	ci := -1
 	inCommit := false
+	skipTo := 0
 	for i := range trace {
+		if i < skipTo {
+			continue
+		}
 		l := trace[i].line
 		if !inCommit && strings.HasPrefix(trace[i].name, "unlink") {
 			ci++
@@ -396,9 +419,11 @@ func assignCommits(trace []sysCall, committing []int) {
 				}
 				j++
 			}
+			skipTo = j
 			inCommit = false
 		}
 	}
+	return ci + 1
 }
 
 func genC05Crash(t *rapid.T) bson.D {
@@ -417,7 +442,7 @@ func runC05Crash(c bson.D, x *Ctx) error {
 	pick := asI(getD(c, "pick"))
 	tier := os.Getenv("VERIF_TIER")
 	// reference states
-	hashes, _, results, err := c05Reference(prog, nil)
+	hashes, _, results, wrote, err := c05ReferenceW(prog, nil)
 	if err != nil {
 		return fmt.Errorf("harness: reference run: %v", err)
 	}
@@ -444,12 +469,22 @@ func runC05Crash(c bson.D, x *Ctx) error {
 		if !found {
 			return fmt.Errorf("harness: the child's state after commit %d differs from the in-process reference", i+1)
 		}
-		if results[i] && hashes[i+1] != prev {
+		if wrote[i] {
 			committing = append(committing, i+1)
+			if !results[i] {
+				return fmt.Errorf("harness: commit %d of the reference run wrote the file but failed", i+1)
+			}
+			if hashes[i+1] == prev {
+				x.Class("commit-rewrites-unchanged-state")
+			}
+		} else if hashes[i+1] != prev {
+			return fmt.Errorf("commit %d changed the state visible to clients without writing the store file", i+1)
 		}
 		prev = hashes[i+1]
 	}
-	assignCommits(base.trace, committing)
+	if groups := assignCommits(base.trace, committing); groups != len(committing) {
+		return fmt.Errorf("harness: the trace shows %d writes of the store file, the reference run %d", groups, len(committing))
+	}
 	// images: obtained by re-running the reference per commit is costly; the
 	// power-loss model only needs the bytes of the files as the child wrote
 	// them, taken from an instrumented rerun below when needed
